@@ -14,18 +14,22 @@ package config
 
 //@ func (*ServerConfig).OpenIDEnabled
 //@   requires s != nil
+//@   ghostset #enabledOpenID = result
 //@   ensures[C18,C05] iff: result == authHas(s.Authentication, "openid")
 
 //@ func (*ServerConfig).KerberosEnabled
 //@   requires s != nil
+//@   ghostset #enabledKerberos = result
 //@   ensures[C18,C05] iff: result == authHas(s.Authentication, "kerberos")
 
 //@ func (*ServerConfig).BasicAuthEnabled
 //@   requires s != nil
+//@   ghostset #enabledBasic = result
 //@   ensures[C18,C05] iff: result == (authHas(s.Authentication, "local") || authHas(s.Authentication, "basic"))
 
 //@ func (*ServerConfig).NtlmEnabled
 //@   requires s != nil
+//@   ghostset #enabledNtlm = result
 //@   ensures[C18,C05] iff: result == authHas(s.Authentication, "ntlm")
 
 //@ func Load
